@@ -18,7 +18,7 @@
        environment acting at any moment.
    That the real goroutines behave like the model is the correspondence checked by the harness
    (outcomes: CloseRun.run_c07; recorded yield-point traces: CloseRun.accepts). *)
-From Scrapli Require Import Conc Close CloseLemmas CloseRun.
+From Scrapli Require Import Conc Close CloseDefs CloseLemmas CloseRun.
 From Coq Require Import List Arith Bool NArith.
 Import ListNotations.
 
@@ -199,18 +199,7 @@ Print Assumptions C07_old_refuted_netconf_close_blocks.
 
 (* ---------- state counts and witnesses (informative output) ---------- *)
 
-(* reachable states per scenario; columns = idle, blocked, eof, ioerr, data-arriving,
-   error-arriving, eof-arriving, any; 0 = out of scope *)
-Definition count_row (k : kind) (b2 u : bool) (tc : tcb) : list N :=
-  map (fun st => let sc := mkSc k st tc b2 u in
-                 if in_scope sc then N.of_nat (fst (state_count sc)) else 0%N) all_states.
-Definition count_table : list (list (list N)) :=
-  map (fun k => flat_map (fun b2 => flat_map (fun u => map (count_row k b2 u) all_tcs) all_bools)
-                         all_bools) all_kinds.
-Eval vm_compute in count_table.
-Eval vm_compute in
-  (length scenarios,
-   fold_left N.add (concat (concat count_table)) 0%N).
+Eval vm_compute in length scenarios.
 
 Eval vm_compute in
   map (fun b2 => map (fun tc => (N.of_nat (length (system_reach b2 tc)),
